@@ -970,11 +970,14 @@ def gen_timers(repo):
     def instant():
         scope = find_impl(src, r"Time")
         _, _, body = find_fn(scope, "instant")
-        m = re.match(r"\s*t0\s*\+\s*(Duration::new\(.*\))\s*$", body, re.S)
-        if not m:
-            raise TrError("instant: expected `t0 + Duration::new(..)`")
+        ss = parse_body(body)
+        # the value is `t0 + <duration>`: translate the duration (a (secs, nanos) pair relative to t0)
+        last = ss[-1]
+        if last[0] != "tail" or last[1][0] != "bin" or last[1][1] != "+" or last[1][2] != ("path", ["t0"]):
+            raise TrError("instant: expected the value `t0 + Duration::new(..)`")
+        ss = ss[:-1] + [("tail", last[1][3])]
         tr = Tr(selfT, {}, self_ty="u64")
-        code, _ = tr.stmts([("tail", parse_expr_text(m.group(1)))], None)
+        code, _ = tr.stmts(ss, None)
         return fn_def("time_instant", ["self_"], code, "%s: Time::instant  (result = (secs, nanos) to add to t0)" % rel)
 
     add(instant)
